@@ -38,7 +38,7 @@ IdOf(v) == IF Len(v.d) > 0 THEN v.d[1] ELSE -1
 CallsFor(e, id) == {k \in 1..Len(e.calls) : e.calls[k].id = id}
 \* the container entry "is" the operation's return value: same integer content (numeric
 \* containers may change the number type, never the numbers)
-Carries(entry, ret) == entry.d = ret.d
+Carries(entry, ret) == entry.d = ret.d /\ ((entry.t = "num" /\ ret.t = "num") => entry.s = ret.s)     \* ("+half": id + 1/2)
 
 \* first failing PROPERTY clause for row r1 (1-based) of event e, or "ok"
 JudgeRow(e, r1) ==
